@@ -105,3 +105,18 @@ Proof. intros res. destruct res; cbn; split; intros H; try discriminate H; auto.
 
 Lemma falling_through_refuted : deliver_falling_through RForeign <> OErrorPath.
 Proof. discriminate. Qed.
+
+(** * (value, error) pairs *)
+Theorem error_decides : forall v, deliver_pair v true = [OErrorPath].
+Proof. reflexivity. Qed.
+
+Theorem visited_iff_valid_and_no_error : forall v err, In OVisited (deliver_pair v err) <-> (v = VValid /\ err = false).
+Proof.
+  intros v err. unfold deliver_pair. destruct err, v; simpl; split; intro H;
+    try (destruct H as [H|H]; try discriminate; try contradiction);
+    try (destruct H as [H1 H2]; discriminate); try contradiction; try (split; reflexivity); try (left; reflexivity).
+Qed.
+
+Theorem lost_else_refuted :
+  deliver_pair VValid true = [OErrorPath] /\ deliver_pair_no_else VValid true = [OErrorPath; OVisited].
+Proof. split; reflexivity. Qed.
